@@ -110,6 +110,7 @@ MUTANTS = {
     },
     "C16": {
         "d76_reverted": [("_listener.py", "            if self.last_message.is_query() and self.heard:", "            if self.last_message.is_query() and self._registry.has_entries:")],
+        "d78_reverted": [("_listener.py", "(now - _DUPLICATE_PACKET_BACK_TO_BACK_INTERVAL) < self.last_read)", "(now - _DUPLICATE_PACKET_BACK_TO_BACK_INTERVAL) < self.last_time)")],
         "guard_disabled": [("_listener.py", "            self.data == data\n", "            False and self.data == data\n")],
         "guard_interval_zero": [("const.py", "_DUPLICATE_PACKET_SUPPRESSION_INTERVAL = 1000", "_DUPLICATE_PACKET_SUPPRESSION_INTERVAL = 0")],
         "guard_skips_queries": [("_listener.py", "            and not self.last_message.has_qu_question()", "            and not self.last_message.is_query()")],
